@@ -24,6 +24,7 @@ import (
 	"crypto/sha256"
 	"encoding/binary"
 	"fmt"
+	"github.com/ethereum/go-ethereum/p2p/enr"
 	"math/rand"
 	"net"
 	"os"
@@ -763,6 +764,23 @@ func runTalk(o *Out, r *rand.Rand, scale int, n *c01Node, senders []sender, redu
 		if r.Intn(12) == 0 {
 			return sender{ver: "x"}
 		}
+		if r.Intn(10) == 0 {
+			// a sender whose record has no usable UDP endpoint (a node behind NAT signs such a record before it learns its
+			// address): no ip and no port, an ip without a port, the unspecified address. It speaks version 0 (no pv entry).
+			var rec enr.Record
+			switch r.Intn(3) {
+			case 1:
+				rec.Set(enr.IP(net.IP{35, 77, 1, byte(1 + r.Intn(200))}))
+			case 2:
+				rec.Set(enr.IP(net.IP{0, 0, 0, 0}))
+				rec.Set(enr.UDP(uint16(3000 + r.Intn(1000))))
+			}
+			if enode.SignV4(&rec, keyFromSeed(r)) == nil {
+				if nn, err := enode.New(enode.ValidSchemes, &rec); err == nil {
+					return sender{"0", nn, &net.UDPAddr{IP: net.IP{35, 78, 1, 1}, Port: 4000 + r.Intn(1000)}}
+				}
+			}
+		}
 		return senders[r.Intn(len(senders))]
 	}
 	one := func(b []byte) []Term { return []Term{lit(b)} }
@@ -813,6 +831,13 @@ func runTalk(o *Out, r *rand.Rand, scale int, n *c01Node, senders []sender, redu
 		}
 		for _, off := range []int{0, 3, 5, 8} {
 			emit(any(), one(cat([]byte{4}, u32le(off), rnd(8))))
+		}
+		// every item the node holds is asked for by three senders of every kind (the large ones make the node announce a uTP
+		// connection to the sender: endpoint-less records included)
+		for _, h := range n.have {
+			for k := 0; k < 4; k++ {
+				emit(any(), one(cat([]byte{4}, u32le(4), h.key)))
+			}
 		}
 		// OFFER: list limit 64, item limit 2048, the empty list in both spellings, empty keys at every position
 		emit(any(), one(cat([]byte{6}, u32le(4))))
